@@ -77,18 +77,33 @@ Qed.
 
 (* ================================================================ what a process step observes *)
 Definition is_ctl_request (p : list N) (mt : msg_type) : bool := msg_type_eqb mt MCtpControl && is_request p.
+(* well-formed control request (the condition c11_step and process_panic_class use); Spec.accepted_request adds
+   the length bound, which class 0 of the decoder supplies *)
+Definition accepted3 (p : list N) : bool := wf_packet p && (nth 8 p 0 =? 0) && is_request p.
+Lemma accepted_request_split p : accepted_request p = accepted3 p && (12 <=? length p)%nat.
+Proof. reflexivity. Qed.
 
-Lemma accept_wf_request p mt rng : bytes_ok p -> decode_packet p = Val (inl (mt, rng)) ->
-  is_ctl_request p mt = true -> accepted_request p = true.
+Lemma accept_wf_request3 p mt rng : bytes_ok p -> decode_packet p = Val (inl (mt, rng)) ->
+  is_ctl_request p mt = true -> accepted3 p = true.
 Proof.
   intros Hok Hd Hq. destruct (decode_accept_inv p mt rng Hok Hd) as (Hc & Hh & Hp & S).
   unfold is_ctl_request in Hq. apply andb_true_iff in Hq as [Hm Hr].
   destruct S as [(E8 & -> & _)|[(E8 & _ & _ & _ & Hlen)|(_ & _ & Hr' & _)]].
   - exfalso. unfold header_ok in Hh. apply andb_true_iff in Hh as [_ Hs].
     destruct (supported_cases _ Hs) as [E|[E|[E|[E|E]]]]; rewrite E in *; discriminate.
-  - unfold accepted_request, wf_packet. rewrite Hh, Hp, E8, Hr, (payload_len_req p E8 Hr).
+  - unfold accepted3, wf_packet. rewrite Hh, Hp, E8, Hr, (payload_len_req p E8 Hr).
     rewrite model_req_len_spec in Hlen. rewrite Hlen. reflexivity.
   - rewrite Hr in Hr'. discriminate.
+Qed.
+
+Lemma accept_wf_request p mt rng : bytes_ok p -> decode_packet p = Val (inl (mt, rng)) ->
+  is_ctl_request p mt = true -> accepted_request p = true.
+Proof.
+  intros Hok Hd Hq. rewrite accepted_request_split, (accept_wf_request3 p mt rng Hok Hd Hq). cbn [andb].
+  destruct (decode_accept_inv p mt rng Hok Hd) as (Hc & Hh & _ & _).
+  pose proof (accept_wf_request3 p mt rng Hok Hd Hq) as H3. unfold accepted3 in H3.
+  apply andb_true_iff in H3 as [H3 Hr]. apply andb_true_iff in H3 as [_ E8].
+  apply Nat.leb_le. exact (proj1 (class0_req p Hc Hh E8 Hr)).
 Qed.
 
 (* the state and observation of a process step, by cases on what decode_packet says of the same bytes *)
@@ -183,7 +198,7 @@ Proof.
   - (* writes *)
     destruct (decode_packet p) as [[[mt rng]|e]|k] eqn:Hd.
     + destruct (is_ctl_request p mt) eqn:Hq.
-      * pose proof (accept_wf_request p mt rng Hok Hd Hq) as Hacc. unfold accepted_request in Hacc.
+      * pose proof (accept_wf_request3 p mt rng Hok Hd Hq) as Hacc. unfold accepted3 in Hacc.
         destruct S as [(c' & b & k & _ & E)|(c' & b & n & _ & E & L1 & L2)]; rewrite E; cbn [snd]; [reflexivity|].
         rewrite Hacc, L1, L2, Nat.eqb_refl, list_eqb_refl. reflexivity.
       * rewrite S. cbn [snd]. apply list_eqb_refl.
@@ -252,24 +267,37 @@ Qed.
 Lemma c02_step_ok ovf g s c o : wf_cfg g -> cinv g c -> oinv ovf s c -> wf_op o ->
   good (c02_step s o (obs3_of (step ovf c o))) = true.
 Proof.
-  intros Hg Hc Ho Hw. destruct o as [p buf|p| | | | | |]; try apply good_triv.
-  - (* process *)
-    destruct Hw as [Hok Hb]. unfold c02_step. cbv zeta.
-    destruct ((1 <=? length p)%nat && negb (pec_good p)) eqn:Ec; [|apply good_triv].
-    apply andb_true_iff in Ec as [_ Hp]. apply negb_true_iff in Hp.
-    destruct (bad_pec_inert ovf c p buf Hok Hp) as (r & E & Hr).
+  intros Hg Hc Ho Hw. unfold c02_step, obs3_of.
+  destruct o as [p buf|p|p|rh e|u|h id a ls buf|what fld raw v|what b].
+  - (* process: the observation is XProcess or XPanic *)
+    destruct Hw as [Hok Hb]. cbn [step].
+    destruct (process_packet ovf c p buf) as [[c' b] r] eqn:E.
+    destruct ((1 <=? length p)%nat && negb (pec_good p)) eqn:Ec.
+    2:{ destruct r; apply good_triv. }
+    apply andb_true_iff in Ec as [Ec1 Hp]. apply negb_true_iff in Hp.
+    destruct (bad_pec_inert ovf c p buf Hok Hp) as (r0 & E' & Hr). rewrite E in E'. injection E' as -> -> ->.
     destruct Ho as (He & _). rewrite He.
-    unfold obs3_of. cbn [step]. rewrite E. apply good_of.
-    destruct r as [[x|e]|k]; cbn [fst snd].
+    destruct r0 as [[x|e]|k]; cbn [fst snd]; apply good_of.
     + exfalso. exact (Hr x eq_refl).
     + rewrite list_eqb_refl, !N.eqb_refl. reflexivity.
     + rewrite list_eqb_refl, !N.eqb_refl. reflexivity.
-  - (* decode *)
-    cbn in Hw. unfold c02_step. cbv zeta. destruct (1 <=? length p)%nat; [|apply good_triv].
-    destruct (pec_good p) eqn:Hp; [apply good_triv|]. apply good_of.
-    unfold obs3_of. cbn [step fst snd].
-    destruct (decode_packet p) as [[d|e]|k] eqn:Hd; try reflexivity.
+  - (* decode: XDecode or XPanic *)
+    cbn [wf_op] in Hw. cbn [step fst snd].
+    destruct (decode_packet p) as [[d|e]|k] eqn:Hd;
+      destruct (1 <=? length p)%nat; try apply good_triv;
+      destruct (pec_good p) eqn:Hp; try apply good_triv; apply good_of; try reflexivity.
     rewrite (decode_ok_implies_pec p d Hw Hd) in Hp. discriminate.
+  - (* get_length *)
+    cbn [step fst snd]. destruct (get_length p) as [r|k]; apply good_triv.
+  - destruct rh; apply good_triv.
+  - cbn [step]. unfold set_uuid. destruct (length u =? 16)%nat; apply good_triv.
+  - (* encode: XBad only for an unknown encoder *)
+    cbn [step fst snd]. destruct (encode_call ovf c h id a ls) as [w|] eqn:Ew.
+    + destruct (w buf) as [b0 [r|k]]; apply good_triv.
+    + destruct (known_encoder h id) eqn:Hk; [|apply good_triv].
+      destruct (known_encoder_call ovf c h id a ls Hk) as [w Ew']. rewrite Ew' in Ew. discriminate.
+  - cbn [step fst snd]. destruct (hdr_op what fld raw v); apply good_triv.
+  - cbn [step fst snd]. destruct (conv_op what b); apply good_triv.
 Qed.
 
 Theorem c02_holds : holds_on_model 2.
@@ -376,11 +404,11 @@ Proof.
   intros v Hv. rewrite forallb_forall in H4. specialize (H4 v Hv). apply N.leb_le in H4. lia.
 Qed.
 
-Lemma accepted_request_facts p : accepted_request p = true ->
+Lemma accepted3_facts p : accepted3 p = true ->
   wf_packet p = true /\ (nth 8 p 0 =? 0) = true /\ is_request p = true /\
   len_ok (req_fixed_len (ctl_cmd p)) (length p - 12) = true.
 Proof.
-  unfold accepted_request. intros H. apply andb_true_iff in H as [H Hr]. apply andb_true_iff in H as [Hw E8].
+  unfold accepted3. intros H. apply andb_true_iff in H as [H Hr]. apply andb_true_iff in H as [Hw E8].
   repeat split; try assumption. unfold wf_packet in Hw. rewrite E8, Hr in Hw.
   apply andb_true_iff in Hw as [_ Hl]. rewrite (payload_len_req p E8 Hr) in Hl. exact Hl.
 Qed.
@@ -393,7 +421,7 @@ Proof. intros H. apply N.leb_gt in H. lia. Qed.
    classes P2-P5 *)
 Lemma dispatch_panics_iff ovf g c buf p :
   wf_cfg g -> cinv g c -> valid_cfg g = true -> (64 <= length buf)%nat -> bytes_ok p ->
-  accepted_request p = true -> (9 <=? ctl_cmd p) = false -> (12 <= length p)%nat ->
+  accepted3 p = true -> (9 <=? ctl_cmd p) = false -> (12 <= length p)%nat ->
   let d := dispatch_request ovf c buf (ctl_cmd p) (nth 6 p 0) (sub p 11 (length p - 12)) in
   (process_panic_class ovf g p = 0 /\ exists st n, d = (st, Val n)) \/
   (process_panic_class ovf g p <> 0 /\ exists st k, d = (st, Panic k)).
@@ -402,8 +430,8 @@ Proof.
   pose proof (cinv_addr g c Hg Hc) as Ha. pose proof (nth_ok p 6 Hok) as Hs.
   destruct (valid_cfg_facts g Hv) as (Vm & V1 & V16 & Vf).
   destruct Hc as (_ & Cm & Cv & _ & Cr & Cu & Cul).
-  destruct (accepted_request_facts p Hacc) as (_ & _ & _ & Hlen).
-  unfold process_panic_class. fold (accepted_request p). rewrite Hacc. cbv zeta.
+  destruct (accepted3_facts p Hacc) as (_ & _ & _ & Hlen).
+  unfold process_panic_class. fold (accepted3 p). rewrite Hacc. cbv zeta.
   unfold dispatch_request.
   destruct (cmd_lt9_cases _ Hcmd) as [E|[E|[E|[E|[E|[E|[E|[E|E]]]]]]]]; rewrite E in *;
     cbn [cmd_from_u8 N.leb N.compare Pos.compare Pos.compare_cont N.eqb Pos.eqb orb]; cbv beta iota zeta.
@@ -463,10 +491,10 @@ Proof.
   - (* 8 *) right. split; [discriminate|]. eexists. eexists. reflexivity.
 Qed.
 
-Lemma accepted_request_decodes p : accepted_request p = true ->
+Lemma accepted3_decodes p : accepted3 p = true ->
   spec_decode p = inl (MCtpControl, (11%nat, (length p - 12)%nat)) /\ header_ok p = true.
 Proof.
-  intros Hacc. destruct (accepted_request_facts p Hacc) as (Hw & E8 & Hr & Hlen).
+  intros Hacc. destruct (accepted3_facts p Hacc) as (Hw & E8 & Hr & Hlen).
   unfold wf_packet in Hw. apply andb_true_iff in Hw as [Hw _]. apply andb_true_iff in Hw as [Hh Hp].
   split; [|exact Hh]. unfold spec_decode. rewrite Hh, E8, Hr, Hp. cbn [negb].
   rewrite model_req_len_spec, Hlen. reflexivity.
@@ -485,9 +513,9 @@ Proof.
   2:{ rewrite Hd in P. rewrite P. cbn [snd is_panic]. apply N.eqb_neq in Hk. rewrite Hk.
       apply N.eqb_neq in Hk. split; [intros _; exact Hk|reflexivity]. }
   rewrite Hk. cbn [N.eqb]. rewrite Hd in P.
-  destruct (accepted_request p) eqn:Hacc.
-  - destruct (accepted_request_decodes p Hacc) as [Es Hh]. rewrite Es in P.
-    destruct (accepted_request_facts p Hacc) as (_ & E8 & Hr & _).
+  destruct (accepted3 p) eqn:Hacc.
+  - destruct (accepted3_decodes p Hacc) as [Es Hh]. rewrite Es in P.
+    destruct (accepted3_facts p Hacc) as (_ & E8 & Hr & _).
     destruct (class0_req p Hk Hh E8 Hr) as [L12 Hcmd].
     rewrite Hr in P. change (msg_type_eqb MCtpControl MCtpControl && true) with true in P. cbv iota in P.
     destruct P as [_ P]. rewrite P.
@@ -496,11 +524,11 @@ Proof.
     + rewrite Hz. split; [discriminate|intros H; contradiction].
     + split; [intros _; exact Hz|reflexivity].
   - assert (Hz : process_panic_class ovf g p = 0).
-    { unfold process_panic_class. fold (accepted_request p). rewrite Hacc. reflexivity. }
+    { unfold process_panic_class. fold (accepted3 p). rewrite Hacc. reflexivity. }
     rewrite Hz. split; [|intros H; contradiction]. intros Hpan. exfalso.
     destruct (spec_decode p) as [[mt rng]|e] eqn:Es.
     + fold (is_ctl_request p mt) in P. destruct (is_ctl_request p mt) eqn:Hq.
-      * rewrite (accept_wf_request p mt rng Hok Hd Hq) in Hacc. discriminate.
+      * rewrite (accept_wf_request3 p mt rng Hok Hd Hq) in Hacc. discriminate.
       * rewrite P in Hpan. discriminate.
     + rewrite P in Hpan. discriminate.
 Qed.
